@@ -100,7 +100,7 @@ PROPS['C11'] = dict(
 PROPS['C03'] = dict(
     level='proof',
     composition='Verus lemmas L2 (contracts/lemmas.vtmpl: lemma_begin_reader, lemma_end_reader, lemma_commit) over an abstract state whose transitions are written with the spec functions of the code contracts; the identification of each transition with the corresponding function postcondition is by reading (same spec fns)',
-    units=['txn', 'freelist', 'commit', 'lemmas', 'nodeio'],
+    units=['txn', 'freelist', 'commit', 'lemmas', 'nodeio', 'open'],
     explanation='Snapshot protection: Tx::new (X1) is verified on its real body: a writer releases exactly the pending pages of transactions older than '
                 'open_ro_txs[0] (the oldest open reader, because the list is kept ascending: lock invariant re-established at every guard release) or, '
                 'with no reader, older than itself (F2 is an equality: nothing more, nothing less); a reader gets an unchanged copy of the free list and registers its '
@@ -147,7 +147,7 @@ PROPS['C16'] = dict(
 PROPS['C08'] = dict(
     bounded_quick=[('cursor', 'Node::spill and InnerBucket::merge_nodes / node (an Rc<RefCell<Node>> graph mutated through shared handles: outside both verifiers), the payload bytes Page::write_node copies (bounded Kani codec); Node::split / write / free_page / NodeData::merge, Page::write_node (layout arithmetic, never fails) and InnerBucket::{rebalance, spill, page_node} ARE under contract (units split, nodeio, writenode, bucketcommit, overlay)')],
     level='proof',
-    units=['range', 'cursor', 'pagenode', 'filters', 'bytes'],
+    units=['range', 'cursor', 'pagenode', 'filters', 'bytes', 'data'],
     explanation='Ranges: Range::next is verified on its real body for a generic R: RangeBounds<&[u8]> (all nine combinations of included / excluded / unbounded) against the '
                 'documented Cursor semantics: everything yielded lies within both bounds and is the entry at the cursor; on the first call no entry that satisfies both bounds is '
                 'skipped; later calls advance by exactly one entry and yield None only at the end or beyond the upper bound; the cursor stays well-formed. '
@@ -172,7 +172,7 @@ A_ELEMS = 'element headers of mapped pages and their key bytes are stub views of
 PROPS['C07'] = dict(
     bounded_quick=[('history', 'Node::spill and InnerBucket::merge_nodes / node (an Rc<RefCell<Node>> graph mutated through shared handles: outside both verifiers), the payload bytes Page::write_node copies (bounded Kani codec); Node::split / write / free_page / NodeData::merge, Page::write_node (layout arithmetic, never fails) and InnerBucket::{rebalance, spill, page_node} ARE under contract (units split, nodeio, writenode, bucketcommit, overlay)'), ('cursor', 'Node::spill and InnerBucket::merge_nodes / node (an Rc<RefCell<Node>> graph mutated through shared handles: outside both verifiers), the payload bytes Page::write_node copies (bounded Kani codec); Node::split / write / free_page / NodeData::merge, Page::write_node (layout arithmetic, never fails) and InnerBucket::{rebalance, spill, page_node} ARE under contract (units split, nodeio, writenode, bucketcommit, overlay)')],
     level='other',
-    units=['pagenode', 'cursor', 'bucketops', 'range', 'filters', 'overlay', 'data'],
+    units=['pagenode', 'cursor', 'bucketops', 'range', 'filters', 'overlay', 'data', 'guards'],
     explanation='A write transaction reads a MIXTURE of untouched mapped pages and modified in-memory nodes. Proved on the real bodies, for all node contents: '
                 'PageNode::{leaf, len, index_page, index, val} satisfy ONE contract stated over the node view (len, leaf, key(i), child(i)) whichever representation is behind it '
                 '(representation independence: the Page and the Node arm answer by the same specification, incl. the binary-search slot-before rule); Node::insert_data / delete are '
@@ -189,7 +189,7 @@ PROPS['C05'] = dict(
     bounded_quick=[('checker', 'stands in for TxInner::check when unit check is undecided (rewritten body): structurally damaged files must be rejected by DB::check()'), ('history', 'Node::spill and InnerBucket::merge_nodes / node (an Rc<RefCell<Node>> graph mutated through shared handles: outside both verifiers), the payload bytes Page::write_node copies (bounded Kani codec); Node::split / write / free_page / NodeData::merge, Page::write_node (layout arithmetic, never fails) and InnerBucket::{rebalance, spill, page_node} ARE under contract (units split, nodeio, writenode, bucketcommit, overlay)')],
     level='proof',
     composition='the accounting part of INV (pending pages below the high-water mark, not free, pending once; live pages not free) is preserved by begin/end reader and commit: Verus lemma L2 (contracts/lemmas.vtmpl) under assumptions A1/A2',
-    units=['freelist', 'commit', 'open', 'pagenode', 'lemmas', 'bucketops', 'nodeio', 'split', 'bucketcommit', 'check', 'writenode', 'markdel'],
+    units=['freelist', 'commit', 'open', 'pagenode', 'lemmas', 'bucketops', 'nodeio', 'split', 'bucketcommit', 'check', 'writenode', 'markdel', 'txn'],
     kani_quick=['layout'],
     kani_thorough=['codec'],
     explanation='Page accounting, allocator and serialisation side (the tree-shape half is outside): the allocator never hands out a page that is pending, already allocated in this transaction or a header page, '
@@ -210,7 +210,7 @@ PROPS['C05'] = dict(
 PROPS['C01'] = dict(
     bounded_quick=[('history', 'Node::spill and InnerBucket::merge_nodes / node (an Rc<RefCell<Node>> graph mutated through shared handles: outside both verifiers), the payload bytes Page::write_node copies (bounded Kani codec); Node::split / write / free_page / NodeData::merge, Page::write_node (layout arithmetic, never fails) and InnerBucket::{rebalance, spill, page_node} ARE under contract (units split, nodeio, writenode, bucketcommit, overlay)'), ('cursor', 'Node::spill and InnerBucket::merge_nodes / node (an Rc<RefCell<Node>> graph mutated through shared handles: outside both verifiers), the payload bytes Page::write_node copies (bounded Kani codec); Node::split / write / free_page / NodeData::merge, Page::write_node (layout arithmetic, never fails) and InnerBucket::{rebalance, spill, page_node} ARE under contract (units split, nodeio, writenode, bucketcommit, overlay)')],
     level='other',
-    units=['pagenode', 'cursor', 'range', 'guards', 'bucketops', 'bytes', 'split', 'bucketcommit', 'overlay', 'data', 'writenode', 'markdel', 'commit', 'txn', 'open'],
+    units=['pagenode', 'cursor', 'range', 'guards', 'bucketops', 'bytes', 'split', 'bucketcommit', 'overlay', 'data', 'writenode', 'markdel', 'commit', 'txn', 'open', 'filters', 'freelist', 'nodeio'],
     kani_quick=['layout'],
     kani_thorough=['codec'],
     explanation='Leaf operations against the mathematical ordered map, for all sizes: Node::insert_data is map insert on a strictly ascending entry sequence (replace on equal key, insert at the sorted position otherwise, '
